@@ -17,7 +17,10 @@ def sh(cmd, cwd=None, timeout=3600):
 
 def main():
     pid, n = sys.argv[1], sys.argv[2]
-    out = f"/tmp/seed/out-{pid}"
+    # optional: seed directory of another round and the number offset under which the change is filed
+    seed_dir = os.environ.get("SEED_DIR", "/tmp/seed")
+    file_n = str(int(n) + int(os.environ.get("SEED_OFFSET", "0")))
+    out = f"{seed_dir}/out-{pid}"
     diff = f"{out}/change{n}.diff"
     md = f"{out}/change{n}.md"
     if not os.path.exists(diff):
@@ -45,18 +48,18 @@ def main():
     if not pat:
         print("cannot find demo command in", md)
         os.makedirs("/tmp/vs/results", exist_ok=True)
-        json.dump({"property": pid, "change": int(n), "status": "rejected: no demo command recognised in the write-up"}, open(f"/tmp/vs/results/{pid}-{n}.json", "w"))
+        json.dump({"property": pid, "change": int(n), "status": "rejected: no demo command recognised in the write-up"}, open(f"/tmp/vs/results/{pid}-{file_n}.json", "w"))
         return 2
     demos = sorted(glob.glob(f"{out}/change{n}_demo*_test.go"))
     # only the demo files whose package matches the target dir are dropped in (e2e variants name another dir in the md)
-    wt = f"/tmp/vs/{pid}-{n}"
+    wt = f"/tmp/vs/{pid}-{file_n}"
     shutil.rmtree(wt, ignore_errors=True)
     os.makedirs("/tmp/vs", exist_ok=True)
     sh(f"git -C /repo worktree prune")
     rc, o = sh(f"git -C /repo worktree add -q --detach {wt} HEAD")
     if rc != 0:
         print(o); return 2
-    meta = {"property": pid, "change": int(n), "source": f"sub-agent seed-{pid} (given only the property text and a scratch worktree)",
+    meta = {"property": pid, "change": int(file_n), "source": f"sub-agent seed-{pid} of {seed_dir} (given only the property text and a scratch worktree)",
             "repo_head": sh("git -C /repo rev-parse --short HEAD")[1].strip(), "demo_cmd": f"cd {mod} && go test -count=1 -run '{pat}' {pkg}",
             "demo_files": [os.path.basename(d) for d in demos]}
     try:
@@ -113,7 +116,7 @@ def main():
         shutil.rmtree(wt, ignore_errors=True)
 
 def finish(pid, n, meta, diff, demos, md):
-    dst = f"/verif/seeded/{pid}-{n}"
+    dst = f"/verif/seeded/{pid}-{file_n}"
     if meta.get("status") == "confirmed":
         os.makedirs(dst, exist_ok=True)
         shutil.copy(diff, f"{dst}/patch.diff")
@@ -123,7 +126,7 @@ def finish(pid, n, meta, diff, demos, md):
             shutil.copy(md, f"{dst}/notes.md")
         json.dump(meta, open(f"{dst}/meta.json", "w"), indent=1)
     os.makedirs("/tmp/vs/results", exist_ok=True)
-    json.dump(meta, open(f"/tmp/vs/results/{pid}-{n}.json", "w"), indent=1)
+    json.dump(meta, open(f"/tmp/vs/results/{pid}-{file_n}.json", "w"), indent=1)
     print(pid, n, meta.get("status"))
     return 0
 
